@@ -25,7 +25,18 @@ fn run_cli(args: &[String], stdin: Option<&[u8]>) -> Option<Run> {
         let mut si = ch.stdin.take()?;
         let data = b.to_vec();
         // write from a thread: the tool may exit (or fill its stdout pipe) before reading everything
-        let h = std::thread::spawn(move || { let _ = si.write_all(&data); });
+        // now and then in several writes with pauses between them (a pipe delivers what the writer has written so
+        // far: the reader sees short reads long before the end of input)
+        let pieces = if data.len() >= 3 && (data.len() + data[0] as usize) % 23 == 0 { 3 } else { 1 };
+        let h = std::thread::spawn(move || {
+            let n = data.len();
+            for k in 0..pieces {
+                let (a, b) = (n * k / pieces, n * (k + 1) / pieces);
+                if si.write_all(&data[a..b]).is_err() { break; }
+                let _ = si.flush();
+                if k + 1 < pieces { std::thread::sleep(std::time::Duration::from_millis(40)); }
+            }
+        });
         let o = ch.wait_with_output().ok()?;
         let _ = h.join();
         return Some(Run { out: o.stdout, err: o.stderr, code: o.status.code().unwrap_or(-1) });
@@ -307,6 +318,8 @@ pub fn generate(ctx: &mut Ctx, rep: &mut Report, emit: &mut dyn FnMut(&mut Ctx, 
             if rng.chance(1, 10) { h = h.to_uppercase(); }
             if rng.chance(1, 15) { h.pop(); }
             if rng.chance(1, 15) { h.push('g'); }
+            // text around valid hex that a lenient reader would forgive: white space at either end, a 0x prefix
+            if rng.chance(1, 10) { h = match rng.below(7) { 0 => format!(" {}", h), 1 => format!("{} ", h), 2 => format!("{}\n", h), 3 => format!("\t{}", h), 4 => format!("{}\u{a0}", h), 5 => format!("0x{}", h), _ => format!("{}\r\n", h) }; }
             emit(ctx, rep, format!("cli.decode {} arg {}", mode, hex(h.as_bytes())));
         } else {
             emit(ctx, rep, format!("cli.decode {} stdin {}", mode, hex(&bytes)));
